@@ -24,7 +24,9 @@ use crate::compile;
 /// The parser is recursive descent; every level of nesting (parentheses, list and map
 /// literals, call arguments, index expressions, else-branches, match arms, runs of `!` and
 /// `-`) costs native stack. Deeper input is rejected instead of overflowing the stack.
-const MAX_NESTING_DEPTH: usize = 48;
+/// An unoptimised build spends up to ~180 KB per level (`c ? (..) : ..`), so the limit has
+/// to stay below 8 MiB / 180 KB for the default main-thread stack to suffice there too.
+const MAX_NESTING_DEPTH: usize = 32;
 
 pub struct CelCompiler<'l> {
     tokenizer: &'l mut dyn Tokenizer,
